@@ -50,14 +50,20 @@ def _run_variant(args):
     tmp = tempfile.mkdtemp(prefix='sa-variant-')
     try:
         make_copy(repo, tmp)
-        if not apply_edits(tmp, variant['edits']):
-            return {'name': variant['name'], 'skipped': True}
-        try:
-            import ast
-            for rel in {e[0] for e in variant['edits']}:
-                ast.parse(open(os.path.join(tmp, rel), encoding='utf-8').read())
-        except SyntaxError as e:
-            return {'name': variant['name'], 'skipped': True, 'why': 'edit does not parse: %s' % e}
+        if variant.get('patch'):
+            import subprocess
+            r = subprocess.run(['patch', '-p1', '-s', '-d', tmp, '-i', variant['patch']], capture_output=True, text=True)
+            if r.returncode != 0:
+                return {'name': variant['name'], 'skipped': True, 'why': 'patch does not apply to the current tree'}
+        else:
+            if not apply_edits(tmp, variant['edits']):
+                return {'name': variant['name'], 'skipped': True}
+            try:
+                import ast
+                for rel in {e[0] for e in variant['edits']}:
+                    ast.parse(open(os.path.join(tmp, rel), encoding='utf-8').read())
+            except SyntaxError as e:
+                return {'name': variant['name'], 'skipped': True, 'why': 'edit does not parse: %s' % e}
         buf = io.StringIO()
         code, ck = chk.run_property(pid, 'quick', tmp, write=False, quiet=True, stream=buf)
         from sa.core.report import load_known
@@ -72,7 +78,15 @@ def _run_variant(args):
 
 def load_corpus(pid):
     from . import corpus
-    return [v for v in corpus.VARIANTS if v['pid'] == pid]
+    out = [v for v in corpus.VARIANTS if v['pid'] == pid]
+    # the confirmed seeded changes written by independent sub-agents for this property (seeded/<pid>-*/patch.diff)
+    sd = os.path.join(VERIF, 'seeded')
+    if os.path.isdir(sd):
+        for d in sorted(os.listdir(sd)):
+            pf = os.path.join(sd, d, 'patch.diff')
+            if d.startswith(pid + '-') and os.path.exists(pf):
+                out.append({'pid': pid, 'kind': 'M', 'name': 'seeded/' + d, 'expect': '', 'patch': pf, 'edits': []})
+    return out
 
 
 def self_validate(pid, repo, base_code, base_ck, jobs=None, verbose=True):
